@@ -420,6 +420,56 @@ for score in (None, 0, 0.0, -0.0, 1e-30, 57.5, -3.25, 1, 1e10):
                     lambda score=score, strand=strand, phase=phase, how=how: gff_columns(3, 30, score, strand, phase, how))
 
 
+GFF_START = ("##gff-version 3\nchr1\tsrc\tgene\t1\t10\t.\t+\t.\tID=a\n##sequence-region chr2 1 500\n"
+             "chr2\tsrc\tgene\t5\t20\t.\t-\t.\tID=b\n##some-directive x y\nchr2\tsrc\tCDS\t6\t9\t2.5\t-\t0\tID=c\n")
+
+
+def gff_edit(ops):
+    """list interface of a GFF3 file that also holds directive lines between its entries: after every edit the
+    entries equal a list model, and entries *and directives* (name and line) equal those of the text parsed again"""
+    f = gff.GFFFile.read(io.StringIO(GFF_START))
+    model = [tuple(e) for e in f]
+    if len(model) != 3:
+        return f"{len(model)} entries parsed from the start text"
+    for op in ops:
+        ent = ("chrN", "src", "exon", 3 + len(model), 40, None, Location.Strand.FORWARD, None, {"ID": f"n{len(model)}"})
+        if op[0] == "append":
+            f.append(*ent)
+            model.append(ent)
+        elif op[0] == "insert":
+            i = min(op[1], len(model))
+            f.insert(i, *ent)
+            model.insert(i, ent)
+        elif op[0] == "replace" and model:
+            i = op[1] % len(model)
+            f[i] = ent
+            model[i] = ent
+        elif op[0] == "delete" and model:
+            i = op[1] % len(model)
+            del f[i]
+            del model[i]
+        view = [tuple(e) for e in f]
+        if view != model or len(f) != len(model):
+            return f"after {op}: entries {view} != model {model}"
+        g = gff.GFFFile.read(io.StringIO(text_of(f)))
+        if [tuple(e) for e in g] != view:
+            return f"after {op}: the text parsed again has the entries {[tuple(e) for e in g]}, the file object {view}"
+        if list(f.directives()) != list(g.directives()):
+            return f"after {op}: directives() = {list(f.directives())}, the text parsed again has {list(g.directives())}"
+        for name, line in f.directives():
+            if not f.lines[line].startswith("##" + name.split()[0]):
+                return f"after {op}: directive {name!r} is reported at line {line}, which reads {f.lines[line]!r}"
+    return None
+
+
+gffops = [("append",), ("insert", 0), ("insert", 1), ("insert", 3), ("replace", 0), ("replace", 2), ("delete", 0), ("delete", 1), ("delete", 2)]
+for n in (1, 2, 3):
+    for combo in itertools.product(gffops, repeat=n):
+        if n == 3 and not R.thorough and (hash(combo) % 3):
+            continue
+        R.check("GFF3 editing keeps text and view consistent", "gff edit", {"ops": list(combo)}, lambda combo=combo: gff_edit(list(combo)))
+
+
 def gff_annotation(features):
     annot = Annotation(features)
     f = gff.GFFFile()
